@@ -18,6 +18,19 @@ import time as _time
 from ..core import emit_behaviours, model_check, pool_map, sany, validate_traces
 from ..env import Conn, LoggerStub, boot
 
+META = {
+    'text': 'TLC model-checks the routing table design (all interleavings of logging/emit/ident/disconnect on 2-3 '
+            'connections) and the rotation rule; every depth-bounded behaviour TLC enumerates is replayed on the real '
+            'Dispatcher + RemoteLogHandler with the level table and the set of receivers compared after each step, and '
+            'recorded random histories / directory listings of the real LogfileHandler are validated by TLC against '
+            'Trace_Logging / Trace_LogRotation. Bounded (depth, 3 connections, 2 modules), exhaustive inside the bound.',
+    'note': 'Trusted: TLC; the small alpha/gamma glue in harness/props/c20.py (fake connections, patched clock of '
+            'mlzlog); numeric level values and unknown module names in logging requests are outside the alphabet.',
+    'tech': 'TLA+ spec (Logging.tla, LogRotation.tla) + TLC model checking; spec->code replay of all TLC behaviours; '
+            'code->spec TLC trace validation',
+    'ref': 'DESIGN.md section 5 C20',
+}
+
 LEVELNO = {'debug': 10, 'comlog': 15, 'info': 20, 'warning': 30, 'error': 40}
 MODS = ['m1', 'm2']
 
